@@ -1,6 +1,6 @@
 (** C06 — termination bookkeeping: the dependency tracker never loses or duplicates a waiter; prompts are bounded. *)
 From Coq Require Import ZArith NArith List Bool Permutation.
-From HV Require Import Solver TrackerProofs RunLemmas SolverDem SolverPrompt SolverExamples SolverWaits SolverCount.
+From HV Require Import Solver TrackerProofs RunLemmas SolverDem SolverPrompt SolverExamples SolverWaits SolverCount SolverTerm.
 Import ListNotations.
 
 (* (1) every history of add_unmet / meet / generator steps keeps the representation invariant *)
@@ -65,6 +65,29 @@ Theorem C06_bounded_attempts :
             (cnt f (attempts (trace s)) <= 1 + length (waited_for f s) + cnt f (released (trace s)) + length (specs s))%nat.
 Proof. intros C rank ans R fuel I hp r. exact (bounded_attempts_distinct C rank ans R fuel I hp r). Qed.
 
+(* (5) total work and termination. For a catalogue whose lines, inputs and forms lie in the finite lists UL, UI, UF, every run logs at
+   most BOUND = |UL|*(1+|UI|) + |UL|^2 + |UL|*|UI| + |UI| events (line evaluations and prompts) ... *)
+Theorem C06_total_work_bounded :
+  forall (C:catalogue) (rank:name -> N) (ans:name -> option V) (R:list name) (I0:istore) (UL UI:list name),
+  (forall F fi, c_form C F = Some fi -> incl (f_required fi ++ f_optional fi) UL) ->
+  (forall F fi, c_form C F = Some fi -> incl (f_inputs fi) UI) ->
+  forall fuel hp r, cat_wf C -> cat_nodup C -> NoDup R ->
+  solve C rank fuel R [] I0 hp ans = r -> (length (trace (result_state r)) <= BOUND UL UI)%nat.
+Proof. intros C rank ans R I0 UL UI HL HI fuel hp r. exact (run_bounded C rank ans R I0 UL UI HL HI fuel hp r). Qed.
+
+(* ... and the solver TERMINATES: with fuel above 2*BOUND+1 (every pass of the main loop and every pop of the queue makes progress) and
+   fewer forms than the retry limit of one attempt, no run - cyclic definitions, unknown names, a user who stops answering - ends for
+   lack of fuel. *)
+Theorem C06_terminates :
+  forall (C:catalogue) (rank:name -> N) (ans:name -> option V) (R:list name) (I0:istore) (UL UI UF:list name),
+  (forall F fi, c_form C F = Some fi -> incl (f_required fi ++ f_optional fi) UL) ->
+  (forall F fi, c_form C F = Some fi -> incl (f_inputs fi) UI) ->
+  (forall F fi, c_form C F = Some fi -> In F UF) ->
+  forall fuel hp, cat_wf C -> cat_nodup C -> NoDup R -> (length UF < retry_fuel)%nat ->
+  (2 * BOUND UL UI + 1 < fuel)%nat ->
+  forall e sx, solve C rank fuel R [] I0 hp ans = inr (e, sx) -> e <> EOutOfFuel.
+Proof. intros C rank ans R I0 UL UI UF HL HI HF fuel hp. exact (solve_terminates C rank ans R I0 UL UI UF HL HI HF fuel hp). Qed.
+
 (* non-vacuity: the example catalogue meets the hypotheses; its cyclic run has four distinct waits *)
 Ltac nodup_lit := repeat (apply NoDup_cons; [cbn [In]; intros Hx; repeat (destruct Hx as [Hx|Hx]; [discriminate Hx|]); exact Hx|]); apply NoDup_nil.
 Example C06_exC_well_formed : cat_wf exC /\ cat_nodup exC.
@@ -90,6 +113,21 @@ Example C06_cycle_attempts :
   (cnt 11%N (attempts (trace s)), waited_for 11%N s, cnt 11%N (released (trace s)), length (specs s)) = (2, [12%N; 10%N], 0, 2)%nat.
 Proof. vm_compute. reflexivity. Qed.
 
+(* the example catalogue lies in UL = 5 lines, UI = 2 inputs, UF = 2 forms: BOUND = 52; its cyclic run logs 6 events and, given
+   106 units of fuel, ends with the lines of the cycle unresolved - not for lack of fuel *)
+Example C06_exC_universe :
+  (forall F fi, c_form exC F = Some fi -> incl (f_required fi ++ f_optional fi) [10%N; 11%N; 12%N; 20%N; 21%N]) /\
+  (forall F fi, c_form exC F = Some fi -> incl (f_inputs fi) [30%N; 31%N]) /\
+  (forall F fi, c_form exC F = Some fi -> In F [0%N; 1%N]).
+Proof.
+  split; [|split]; intros F fi Hc; (destruct F as [|p]; [|destruct p as [p|p|]]); cbn in Hc; try discriminate; inversion Hc; subst;
+    cbn; try (intros a Ha; cbn in *; intuition); tauto.
+Qed.
+Example C06_cycle_terminates :
+  let r := solve exC exRank 106 [0%N] [] [(30%N, Some 3%Z); (31%N, Some 4%Z)] false (fun _ => None) in
+  (BOUND [10%N; 11%N; 12%N; 20%N; 21%N] [30%N; 31%N], length (trace (result_state r)), match r with inl _ => true | inr _ => false end) = (52, 6, true)%nat.
+Proof. vm_compute. reflexivity. Qed.
+
 Goal True. idtac "@@PA C06_tracker_history_wf". Abort.
 Print Assumptions C06_tracker_history_wf.
 Goal True. idtac "@@PA C06_drain_complete". Abort.
@@ -102,3 +140,7 @@ Goal True. idtac "@@PA C06_one_place_per_line". Abort.
 Print Assumptions C06_one_place_per_line.
 Goal True. idtac "@@PA C06_bounded_attempts". Abort.
 Print Assumptions C06_bounded_attempts.
+Goal True. idtac "@@PA C06_total_work_bounded". Abort.
+Print Assumptions C06_total_work_bounded.
+Goal True. idtac "@@PA C06_terminates". Abort.
+Print Assumptions C06_terminates.
